@@ -882,14 +882,22 @@ class LexerSim:
 
 
 def parsers_hook_works(prog) -> bool:
-    """Does get_next_token consult `self.parsers`?  (A stub planted there, alone, on the source "a", is called.)  Rules that
-    replace the sub-parsers by stubs are undecidable when the tokenizer selects its sub-parsers some other way."""
-    sim = LexerSim(prog, "a")
-    hits = []
+    """Does get_next_token consult `self.parsers` whatever the next character is?  (Stubs planted there -- as many as the
+    tree lists -- are consulted on a letter, a digit, a quote, a slash, a bracket, a blank and an unmatchable character.)
+    Rules that replace the sub-parsers by stubs are undecidable when the tokenizer selects its sub-parsers, for some first
+    characters, in another way (a dispatch table, a fast path): the real sub-parsers are then decided through get_next_token
+    itself (R-10.10, R-12.1)."""
+    e = prog.cls("Lexer").attrs.get("parsers")
+    n = len(e.elts) if isinstance(e, (ast.Tuple, ast.List)) else 10
+    for src in ("a", "1", "@", "(", " ", '"', "/"):
+        sim = LexerSim(prog, src)
+        hits = []
 
-    def stub(me=None, sim=sim, hits=hits):
-        hits.append(sim.pos)
-        return TokenStub("T", (1, 1), None)
-    sim.me.__dict__["parsers"] = (stub,)
-    sim.call("get_next_token")
-    return bool(hits)
+        def stub(me=None, sim=sim, hits=hits):
+            hits.append(sim.pos)
+            return None
+        sim.me.__dict__["parsers"] = tuple(stub for _ in range(max(n, 1)))
+        sim.call("get_next_token")
+        if not hits:
+            return False
+    return True
